@@ -1,6 +1,7 @@
 """C10 - run limits are honoured: max_workers, max_errors and retry."""
 import hashlib
 import random
+import threading
 
 from vmon import abort, env, plainrun, quiesce
 
@@ -58,11 +59,89 @@ def gen_cases(tier, seed):
         W = r.choice([33, 36, 40, 48])
         out.append({"seed": s, "n": W + r.randint(2, 12), "W": W, "sched": r.choice(["default", "random"]), "mode": "wave", "wide": True, "delays": "none",
                     "policy": r.choice(["all", "one", "subset"]), "cfg": {"out": "all"}})
+    for i in range(max(12, n // 60)):
+        # the operating system refuses the i-th worker thread (i >= 2): run may fail, but it must not carry on with fewer workers than asked for
+        s = env.seed_for(seed, ID, tier, "refused", i)
+        r = random.Random(env.seed_for(s, "descriptor"))
+        W = r.choice([2, 3, 4, 8])
+        out.append({"seed": s, "n": r.randint(W + 2, 20), "W": W, "sched": r.choice(["default", "random"]), "mode": "wave", "family": r.choice(["layers", "crisscross", "disconnected"]),
+                    "delays": "none", "policy": "all", "cfg": {"out": "all"}, "refuse_start": r.randint(2, W)})
+    for i in range(max(16, n // 40)):
+        s = env.seed_for(seed, ID, tier, "retry_callables", i)
+        r = random.Random(env.seed_for(s, "descriptor"))
+        out.append({"seed": s, "mode": "retry_callables", "n": r.randint(2, 6), "W": r.choice([1, 2, 4]), "sched": r.choice(["default", "random"]), "attempts": r.choice([2, 3, 4])})
     for i in range(max(20, n // 25)):
         s = env.seed_for(seed, ID, tier, "retry_shared", i)
         r = random.Random(env.seed_for(s, "descriptor"))
         out.append({"seed": s, "mode": "retry_shared", "n": r.randint(2, 7), "W": r.choice([1, 2, 4]), "sched": r.choice(["default", "random"]), "attempts": r.choice([2, 3, 4])})
     return out
+
+
+def run_retry_callables(desc):
+    """retry=n (the built-in retry) with call targets that are not plain functions: functools.partial objects, instances with __call__,
+    operator helpers, bound methods, classes - flaky ones that succeed on a later attempt. Every call gets up to n attempts, stops at its
+    first success, and an eventual success counts for its dependents."""
+    import collections
+    import functools
+    import operator
+
+    import uberjob
+
+    rng = random.Random(desc["seed"])
+    n_att = desc["attempts"]
+    m = desc["n"]
+    flaky = {t: rng.randint(0, n_att - 1) for t in range(m)}
+    attempts = collections.Counter()
+
+    def body(tag, *deps):
+        attempts[tag] += 1
+        if attempts[tag] <= flaky[tag]:
+            raise ValueError(f"transient failure of call {tag}, attempt {attempts[tag]}")
+        return tag
+
+    class CallObj:
+        def __init__(self, tag):
+            self.tag = tag
+
+        def __call__(self, *deps):
+            return body(self.tag, *deps)
+
+    class Holder:
+        def __init__(self, tag):
+            self.tag = tag
+
+        def method(self, *deps):
+            return body(self.tag, *deps)
+
+    plan = uberjob.Plan()
+    nodes = []
+    kinds = []
+    for t in range(m):
+        deps = rng.sample(nodes, min(len(nodes), rng.choice([0, 1, 2])))
+        kind = rng.choice(["partial", "callobj", "method", "partial"])
+        kinds.append(kind)
+        fn = functools.partial(body, t) if kind == "partial" else (CallObj(t) if kind == "callobj" else Holder(t).method)
+        nodes.append(plan.call(fn, *deps))
+    exc = res = None
+    try:
+        res = uberjob.run(plan, output=nodes, retry=n_att, max_workers=desc["W"], scheduler=desc["sched"], progress=None)
+    except BaseException as e:
+        exc = e
+    bad = None
+    if exc is not None:
+        bad = (f"every call succeeds within its {n_att} attempts (fails first {dict(flaky)}; callables {kinds}), yet run raised {exc!r} (cause {exc.__cause__!r}); "
+               f"attempts made {dict(attempts)}")
+    else:
+        for t in range(m):
+            if attempts[t] != flaky[t] + 1:
+                bad = f"call {t} ({kinds[t]}) was attempted {attempts[t]} times, expected {flaky[t] + 1}"
+                break
+        if bad is None and res != list(range(m)):
+            bad = f"run returned {res!r}"
+    r_ = {"status": "ok", "counters": {"retry_callable_runs": 1}, "nontrivial": any(flaky.values()), "sig": f"retry_callables|{m}|{n_att}|{kinds}|{sorted(flaky.items())}"}
+    if bad:
+        r_.update(status="violation", detail=f"[retry={n_att} with partial / __call__ / bound-method targets] {bad}", mechanism="limits-retry", witness={"flaky": flaky, "kinds": kinds})
+    return r_
 
 
 def run_retry_shared(desc):
@@ -151,6 +230,8 @@ def run_case(desc):
     mode = desc["mode"]
     if mode == "retry_shared":
         return run_retry_shared(desc)
+    if mode == "retry_callables":
+        return run_retry_callables(desc)
     if mode == "wave":
         return run_wave(desc)
     if mode == "stale":
@@ -190,8 +271,14 @@ def run_wave(desc):
             if infl > W:
                 state["bad"] = f"{infl} calls in flight with max_workers={W}"
             elif len(keys) != want or not set(keys) <= set(ready):
-                state["bad"] = (f"quiescent state: {len(keys)} call(s) executing (gated {sorted(keys)[:8]}) but {len(ready)} independent "
-                                f"calls are ready ({sorted(ready)[:8]}) with max_workers={W}: expected {want} running in parallel")
+                msg = (f"quiescent state: {len(keys)} call(s) executing (gated {sorted(keys)[:8]}) but {len(ready)} independent "
+                       f"calls are ready ({sorted(ready)[:8]}) with max_workers={W}: expected {want} running in parallel")
+                if desc.get("refuse_start"):
+                    # a worker could not be started: if run gives up (raises) this state is part of its tear-down and proves nothing;
+                    # it counts only if run carries on and finally returns as if nothing had happened (decided after the run)
+                    state.setdefault("deferred", msg)
+                else:
+                    state["bad"] = msg
             if state["bad"]:
                 state["stacks"] = drv.stacks()
 
@@ -221,12 +308,32 @@ def run_wave(desc):
 
     drv.start()
     R = None
+    real_start = threading.Thread.start
+    if desc.get("refuse_start"):
+        nstart = [0]
+        main_id = threading.get_ident()
+
+        def start(self_):
+            if threading.get_ident() == main_id and self_ is not drv.thread:
+                nstart[0] += 1
+                if nstart[0] == desc["refuse_start"]:
+                    raise RuntimeError("can't start new thread")
+            return real_start(self_)
+
+        threading.Thread.start = start
     try:
         R = plainrun.execute(desc, pre=lambda nid, att: drv.gate(nid), record_args=False, ir=irr, hang_watch=False,
                              before_run=lambda R_: holder.__setitem__("R", R_))
     finally:
+        threading.Thread.start = real_start
         drv.run_done = True
         drv.stop()
+    if desc.get("refuse_start") and R is not None and R.exc is None and state["bad"] is None and state.get("deferred"):
+        state["bad"] = (f"the start of worker #{desc['refuse_start']} was refused by the operating system, run carried on with fewer workers and returned normally: "
+                        + state["deferred"])
+    if desc.get("refuse_start") and R is not None and R.exc is not None and state["bad"] is None:
+        # run gave up because it could not get its workers: no claim about parallelism is at stake
+        return {"status": "ok", "counters": {"wave_runs": 1, "refused_start_runs": 1, "refused_start_run_raised": 1}, "nontrivial": True, "sig": _sig(irr, desc, "refused")}
     counters = {"wave_runs": 1, "quiescent_states_inspected": drv.quiescent_states, "quiescent_asserts": state["asserts"],
                 "states_with_ge_W_ready": state["states_ge_W"], "waves": len(drv.waves), "max_in_flight_seen": R.H.max_in_flight}
     res = {"status": "ok", "counters": counters, "nontrivial": state["states_ge_W"] > 0, "sig": _sig(irr, desc, desc.get("policy"))}
